@@ -217,6 +217,7 @@ def run(chk):
     chk.cov['rule'] = ('TLC enumerates every signal over Vals with 2..MaxLen samples (integer alphabet => ties are the common case); '
                        'each is replayed in one piece into the three detectors and compared with the definition-level result of the spec. '
                        'Non-trivial = the definition closes >= 1 cycle; distinct by signal. Recorded long signals validated by TLC (IsDefinition evaluated per trace).')
+    chk.cov['rule'] += ' Also: strictly alternating signals over -3..3 with up to 8 (9) samples (all replayed into the FKM detector, every fifth into the four-point detector).'
     chk.cov['exhaustive'] = True
     chk.assumptions += ['FKM part: oracle is the HCM rule in the guideline form pyLife documents (see DESIGN 9); equivalence with the 1985 publication not claimed',
                         'integer-valued samples', 'TLC/SANY/Json module; harness parser and projection']
